@@ -26,6 +26,8 @@ def main():
         # re-validate every kept change in /verif/seeded against the current tree
         items = []
         for name in sorted(os.listdir(os.path.join(VERIF, "seeded"))):
+            if os.environ.get("VERIF_SEED_FILTER") and not __import__("re").search(os.environ["VERIF_SEED_FILTER"], name):
+                continue
             if "-" in name and os.path.isdir(os.path.join(VERIF, "seeded", name)) and (not sys.argv[2:] or name.split("-")[0] in sys.argv[2:]):
                 items.append((name.split("-")[0], name.split("-")[1], os.path.join(VERIF, "seeded", name)))
     else:
